@@ -884,20 +884,74 @@ func checkSaveRestore(c *Ctx, t *tables, a *parserAnchors, in installer) {
 			allowed[n] = true
 		}
 	}
+	// a setter of the field: an unexported method whose whole body is `field = <its parameter>`, called directly only;
+	// a call of it counts as a store of the argument at the call site
+	var setter *ssa.Function
+	for _, f := range c.libFunctions("parser") {
+		if f.Parent() != nil || f.Object() == nil || f.Object().Exported() || len(f.Blocks) != 1 || len(f.Params) != 2 || f.Signature.Results().Len() != 0 {
+			continue
+		}
+		var st *ssa.Store
+		plain := true
+		for _, ins := range f.Blocks[0].Instrs {
+			switch x := ins.(type) {
+			case *ssa.Store:
+				if st != nil {
+					plain = false
+				}
+				st = x
+			case *ssa.Call, *ssa.Defer, *ssa.Go, *ssa.MapUpdate, *ssa.Send, *ssa.Panic:
+				plain = false
+			}
+		}
+		if !plain || st == nil || st.Val != ssa.Value(f.Params[1]) {
+			continue
+		}
+		if fa, ok := isFieldAddr(st.Addr, fld); !ok || fa.X != ssa.Value(f.Params[0]) {
+			continue
+		}
+		if _, closed := c.argsAtCallers(f, 1); closed {
+			setter = f
+		}
+	}
+	setterArg := func(ins ssa.Instruction) (ssa.Value, bool) {
+		if setter == nil {
+			return nil, false
+		}
+		switch x := ins.(type) {
+		case *ssa.Call:
+			if x.Call.StaticCallee() == setter {
+				return x.Call.Args[1], true
+			}
+		}
+		return nil, false
+	}
 	nw := 0
 	for _, f := range c.libFunctions("parser") {
 		allInstrs(f, func(_ *ssa.BasicBlock, _ int, ins ssa.Instruction) {
-			if st, ok := ins.(*ssa.Store); ok {
+			if st, ok := ins.(*ssa.Store); ok && f != setter {
 				if _, ok := isFieldAddr(st.Addr, fld); ok {
 					nw++
 					c.check(allowed[f], fmt.Sprintf("%s: store #%d to %s", fnName(f), nw, fld.Name()), st.Pos(), "written by the expression wrapper only", "the requested binding power is written outside the expression wrapper")
 				}
 			}
+			isSet := false
+			if _, ok := setterArg(ins); ok {
+				isSet = true
+			}
+			if d, ok := ins.(*ssa.Defer); ok && setter != nil && d.Call.StaticCallee() == setter {
+				isSet = true
+			}
+			if isSet {
+				nw++
+				c.check(allowed[f], fmt.Sprintf("%s: store #%d to %s", fnName(f), nw, fld.Name()), ins.Pos(), "written by the expression wrapper only (through its setter)", "the requested binding power is written outside the expression wrapper")
+			}
 		})
 	}
 	// in the wrapper: save, set, deferred restore before the interceptor call
 	var save *ssa.UnOp
-	var set *ssa.Store
+	var set ssa.Instruction
+	var setVal ssa.Value
 	var icall *ssa.Call
 	// the value that must be stored: the wrapper's own precedence argument
 	var wantPrec ssa.Value
@@ -930,7 +984,11 @@ func checkSaveRestore(c *Ctx, t *tables, a *parserAnchors, in installer) {
 			}
 		case *ssa.Store:
 			if _, ok := isFieldAddr(x.Addr, fld); ok && icall != nil && instrDominates(x, icall) {
-				set = x
+				set, setVal = x, x.Val
+			}
+		case *ssa.Call:
+			if v, ok := setterArg(x); ok && icall != nil && instrDominates(x, icall) {
+				set, setVal = x, v
 			}
 		}
 	})
@@ -939,12 +997,27 @@ func checkSaveRestore(c *Ctx, t *tables, a *parserAnchors, in installer) {
 		c.bad(key+": save and set", w.Pos(), "the wrapper must load the old value, then store its precedence argument into the field, before calling the interceptor")
 		return
 	}
-	c.check(instrDominates(save, set) && instrDominates(set, icall) && wantPrec != nil && resolve(set.Val) == wantPrec, key+": save and set", set.Pos(), "old value loaded, own precedence stored, before the interceptor runs", "the field is not set to the wrapper's own precedence argument before the interceptor call (or the old value is read after it)")
+	c.check(instrDominates(save, set) && instrDominates(set, icall) && wantPrec != nil && resolve(setVal) == wantPrec, key+": save and set", set.Pos(), "old value loaded, own precedence stored, before the interceptor runs", "the field is not set to the wrapper's own precedence argument before the interceptor call (or the old value is read after it)")
 	// restore: deferred closure registered before the interceptor call, unconditional store of the saved value
 	var restoreOK, anyDefer bool
 	allInstrs(w, func(_ *ssa.BasicBlock, _ int, ins ssa.Instruction) {
 		d, ok := ins.(*ssa.Defer)
 		if !ok {
+			return
+		}
+		// defer p.setter(field) / defer p.setter(saved): the argument is evaluated when the defer statement runs, which
+		// must be before the field is set
+		if setter != nil && d.Call.StaticCallee() == setter {
+			anyDefer = true
+			if !instrDominates(d, icall) {
+				return
+			}
+			arg := resolve(d.Call.Args[1])
+			if ld, ok := arg.(*ssa.UnOp); ok {
+				if _, isFld := isFieldLoad(ld, fld); isFld && instrDominates(ld, set) {
+					restoreOK = true
+				}
+			}
 			return
 		}
 		var dfv ssa.Value = d.Call.Value
@@ -986,7 +1059,7 @@ func checkSaveRestore(c *Ctx, t *tables, a *parserAnchors, in installer) {
 		for _, r := range nonRecoverReturns(w) {
 			found := false
 			allInstrs(w, func(_ *ssa.BasicBlock, _ int, ins ssa.Instruction) {
-				if st, ok := ins.(*ssa.Store); ok && st != set {
+				if st, ok := ins.(*ssa.Store); ok && ssa.Instruction(st) != set {
 					if _, ok := isFieldAddr(st.Addr, fld); ok && resolve(st.Val) == ssa.Value(save) && instrDominates(icall, st) && st.Block().Dominates(r.Block()) {
 						found = true
 					}
